@@ -1,7 +1,7 @@
 (** * Judging a case: does the model agree with what the implementation returned, and does the
     implementation's output satisfy the property checkers. Evaluated by [vm_compute] on [NumF]. *)
 From Coq Require Import ZArith Bool List String Floats.
-From RDM Require Import Base.Num Base.NumF Base.Util Model.Data Model.Rank Model.Pipeline Check.Mk Check.Close Check.C04 Check.C01 Check.C03 Check.C05 Check.C11 Check.C12 Check.C13 Check.C06 Check.C08 Check.C13b.
+From RDM Require Import Base.Num Base.NumF Base.Util Model.Data Model.Rank Model.Pipeline Check.Mk Check.Close Check.Finite Check.C04 Check.C01 Check.C03 Check.C05 Check.C11 Check.C12 Check.C13 Check.C06 Check.C08 Check.C13b.
 Import ListNotations.
 
 Definition obs_echo := (string * float * bool)%type.
@@ -11,6 +11,13 @@ Inductive observed :=
 
 Definition echo_same (m : @echo NumF) (o : obs_echo) : bool :=
   let '(n, p, f) := o in String.eqb (ec_name m) n && f_same (ec_prob m) p && Bool.eqb (ec_fired m) f.
+
+(* the service encodes its answer as JSON, and the encoder refuses NaN and the infinities: an answer the binary64 model
+   computes with such a value in it (a ranking value, a threshold, a bias report) cannot be sent - code 21, which the driver
+   counts as agreement when the implementation failed in the encoder and as code 2 otherwise *)
+Definition resp_finite (r : @response NumF) : bool :=
+  forallb (fun e => entry_fin e e) (resp_result r)
+  && forallb (fun b => ffinite (ec_prob b) && report_fin (ec_report b) (ec_report b)) (resp_biases r).
 
 (* verdict codes: 0 agree; 1 model rejects, code accepts; 2 model accepts, code rejects;
    3 both accept, results differ; 4 both accept, bias echoes differ; 20 agree up to float drift (1e-9 relative);
@@ -22,7 +29,7 @@ Definition agree (m : res (@response NumF)) (o : observed) : nat :=
   | Err EOutOfFuel, _ => 12
   | Err _, ObsErr => 0
   | Err _, ObsOk _ _ => 1
-  | Ok _, ObsErr => 2
+  | Ok r, ObsErr => if resp_finite r then 2 else 21
   | Ok r, ObsOk er eb =>
       if negb (list_eqb echo_same (resp_biases r) eb) then 4
       else if list_eqb entry_same (resp_result r) er then 0
@@ -130,7 +137,8 @@ Definition mkS e n p b a r af rf :=
 
 (* columns: 0 stage correspondence (0 agree, 1 model rejects/code accepts, 2 model accepts/code rejects,
    3 states differ, 4 reports differ, 10.. harness) | 1 inv after | 2 frame | 3 later stages did not rewrite the
-   state/report handed on (C09) | 4 C15 | 5 C16 | 6 C17 | 7 C18 | 8 C19 | 9 criteria changed only as reported (C07) | 10 the report is what was handed on (C09) *)
+   state/report handed on (C09) | 4 C15 | 5 C16 | 6 C17 | 7 C18 | 8 C19 | 9 criteria changed only as reported (C07) | 10 the report is what was handed on (C09)
+   | 11 the binary64 model itself leaves the finite range on this stage (1) *)
 Definition judge_stage (c : scase) : list nat :=
   let m := apply_bias (s_env c) (s_name c) (s_before c) (s_props c) in
   let ag := match m, s_after c with
@@ -144,7 +152,7 @@ Definition judge_stage (c : scase) : list nat :=
                 else if negb (report_close rep (s_report c)) then 4 else 20
             end in
   match s_after c with
-  | None => [ag; 0; 0; 0; 0; 0; 0; 0; 0; 0; 0]
+  | None => [ag; 0; 0; 0; 0; 0; 0; 0; 0; 0; 0; 0]
   | Some a =>
       let nm := s_name c in let p := s_props c in let b := s_before c in let r := s_report c in
       [ ag;
@@ -157,7 +165,8 @@ Definition judge_stage (c : scase) : list nat :=
         if String.eqb nm b_concealment || String.eqb nm b_mixing then b2n (C18_ok nm p b a r) else 0;
         if String.eqb nm b_anchoring then b2n (C19_ok (s_env c) p b a r) else 0;
         b2n (crits_as_reported b a r);
-        b2n (report_faithful a r) ]
+        b2n (report_faithful a r);
+        match m with Ok (st, rep) => if state_fin st st && report_fin rep rep then 0 else 1 | Err _ => 0 end ]
   end.
 
 (** ** level sources (component level) *)
